@@ -14,7 +14,7 @@ import (
 
 func init() {
 	register(&Def{ID: "C08", Engine: "E1", Run: runC08,
-		Rule: "cross product: {Sum,Max,Min} x {function, method} x ordered numeric element types (+complex for Sum) x shapes of rank 1-4 x EVERY non-empty subset of axes (ascending, plus one non-ascending order; for contiguous operands of rank >= 3 every order of every subset) x operand layout L5 x value sets {injective, ties and negatives, overflow}; " +
+		Rule: "cross product: {Sum,Max,Min} x {function, method} x ordered numeric element types (+complex for Sum) x shapes of rank 1-4 x EVERY non-empty subset of axes (ascending, plus one non-ascending order; for contiguous operands of rank >= 3 every order of every subset; axis lists with an axis given twice, which denote the set of their axes) x operand layout L5 x value sets {injective, ties and negatives, overflow, infinities, sums that round, signed zeros}; " +
 			"{Argmax,Argmin} x every axis and AllAxes; generic Reduce(fn) with add/mul/max x every axis. Each result element is compared with the fold of the model array; the operand's storage and metadata and the caller's axes slice must be unchanged. non-trivial = >=2 elements",
 		Assume: []string{"floating-point sums use integer-valued elements so that every summation order gives the same exact result", "NaN is excluded from max/min/arg value sets; an unsupported layout may refuse (error or panic) but never fold wrongly"}})
 }
@@ -108,7 +108,7 @@ func runC08(r *core.Run) {
 	quick := isQuick(r)
 	shapes := ref.DedupShapes(append(ref.ShapesUpTo(1, 3, 3), [][]int{{2, 2, 2, 2}, {2, 1, 2, 3}, {2, 3, 4}, {4, 3}, {5}, {1, 4}, {4, 1}, {3, 2, 1, 2}, {2, 3, 4, 5}, {2, 2, 3, 2}}...))
 	if !quick {
-		shapes = ref.DedupShapes(append(ref.ShapesUpTo(1, 3, 4), append(ref.Shapes(4, 2), [][]int{{2, 1, 2, 3}, {2, 3, 4, 5}, {3, 3, 3, 3}, {5}, {1, 4}, {4, 1}, {3, 2, 1, 2}, {5, 5}}...)...))
+		shapes = ref.DedupShapes(append(ref.ShapesUpTo(1, 3, 4), append(ref.Shapes(4, 2), [][]int{{2, 1, 2, 3}, {2, 3, 4, 5}, {3, 3, 3, 3}, {5}, {1, 4}, {4, 1}, {3, 2, 1, 2}, {5, 5}, {8}, {17}, {33}, {4, 9}, {9, 4}, {2, 17}}...)...))
 	}
 	r.SetBound("shapes", fmt.Sprintf("%d shapes: rank1-3 dims<=%d, rank4 incl. (2,2,2,2),(2,1,2,3),(3,2,1,2)", len(shapes), map[bool]int{true: 3, false: 4}[quick]))
 	dts := append([]ref.DT{}, ref.ORDN...)
@@ -262,6 +262,28 @@ func cmpArr(res *tensor.Dense, want ref.Arr, what string, approx bool) *core.Fai
 	for i := range got {
 		if !ref.Same(got[i], want.El[i]) && !(approx && ref.Close(got[i], want.El[i])) {
 			return core.F("wrong-value", fmt.Sprintf("el%d", i), "%s: element %d is %s, expected %s; got %s expected %s", what, i, ref.Fmt(got[i]), ref.Fmt(want.El[i]), ref.FmtEls(got), ref.FmtEls(want.El))
+		}
+	}
+	// a result with the right elements is also a well-formed tensor (C13's invariant: size = product of the shape, strides
+	// that address distinct in-bounds positions, an order flag that fits the strides) - a later operation relies on it
+	if msg := atlas.MetaInvariant(res); msg != "" {
+		return core.F("invariant-violated", "meta", "%s: the result has the right elements but %s", what, msg)
+	}
+	if msg := atlas.OrderInvariant(res); msg != "" {
+		return core.F("invariant-violated", "order", "%s: the result has the right elements but %s", what, msg)
+	}
+	// ... and used as a starting state it copies to the same elements
+	var cl *tensor.Dense
+	if o := call(func() error { cl, _ = res.Clone().(*tensor.Dense); return nil }); o.Class != "ok" || cl == nil {
+		return core.F("wrong-value", "clone", "%s: the result cannot be cloned (%s)", what, o)
+	}
+	if got2, err := atlas.Logical(cl); err != nil || len(got2) != len(got) {
+		return core.F("wrong-value", "clone", "%s: the clone of the result is unreadable (%v)", what, err)
+	} else {
+		for i := range got2 {
+			if !ref.Same(got2[i], got[i]) {
+				return core.F("wrong-value", "clone", "%s: the result reads %s but its clone reads %s", what, ref.FmtEls(got), ref.FmtEls(got2))
+			}
 		}
 	}
 	return nil
